@@ -674,7 +674,8 @@ func checkC10(c *hx.Ctx) {
 	// allow-lists: each algorithm / curve / patch action removed individually
 	bjobs = append(bjobs, bjob{"allow-lists", func(o protoVariant) bool {
 		for ti, kt := range ref.KeyTypes {
-			vals := c10Requests(br, ref.SHA256, kt, false, 0)
+			// requests whose signing keys carry a (valid) nonce and requests whose keys do not
+			vals := append(c10Requests(br, ref.SHA256, kt, false, 0), c10Requests(br, ref.SHA256, kt, true, 0)[1:]...)
 			for ri, removed := range ref.KeyTypes {
 				for _, which := range []string{"alg", "curve"} {
 					p := base
